@@ -39,11 +39,22 @@ _PRIMITIVES = {"float", "int", "add", "sub", "mul", "div", "sqrt", "opp", "abs",
                "addcarryc", "subcarryc", "diveucl", "diveucl_21", "addmuldiv", "lebs", "ltbs", "compares"}
 
 
+# the standard library's specification of primitive 63-bit integers (Numbers/Cyclic/Int63/Uint63.v declares them as
+# axioms); reached through of_uint63 (the length of a row as a float)
+_UINT63_AXIOMS = {"of_to_Z", "lsl_spec", "lsr_spec", "land_spec", "lor_spec", "lxor_spec", "add_spec", "sub_spec", "mul_spec",
+                  "mulc_spec", "div_spec", "mod_spec", "eqb_correct", "eqb_refl", "ltb_spec", "leb_spec", "compare_def_spec",
+                  "head0_spec", "tail0_spec", "addc_def_spec", "addcarryc_def_spec", "subc_def_spec", "subcarryc_def_spec",
+                  "diveucl_def_spec", "diveucl_21_spec", "addmuldiv_def_spec", "asr_spec", "divs_spec", "mods_spec", "ltsb_spec",
+                  "lesb_spec", "compares_spec"}
+
+
 def _allowed(name, float_file):
     if name in ALLOWED_AXIOMS:
         return True
     if float_file:
         if name in ALLOWED_FLOAT_AXIOMS or name.startswith(("PrimFloat.", "PrimInt63.")):
+            return True
+        if name.startswith("Uint63.") and name.split(".")[-1] in _UINT63_AXIOMS:
             return True
         if "." not in name or name.startswith("FloatAxioms."):
             base = name.split(".")[-1]
